@@ -150,7 +150,10 @@ def scan_crate(root):
                     if n_here:
                         stmt_level += 1
                         in_fn += n_here
-                inner_gates += max(0, len(re.findall(r"#\[cfg\(feature|cfg!\s*\(", inner)) - in_fn)
+                head = body[:body.find("{")] if "{" in body else body
+                is_trait_body = re.match(r"\s*(pub(\([^)]*\))?\s+)?(unsafe\s+)?trait\b", head) or (re.match(r"\s*(unsafe\s+)?impl\b", head) and re.search(r"\bfor\b", head))
+                if is_trait_body:
+                    inner_gates += max(0, len(re.findall(r"#\[cfg\(feature|cfg!\s*\(", inner)) - in_fn)
             for d in optional:
                 if re.search(r"\b%s::" % d.replace("-", "_"), body):
                     refs.append({"where": rel, "ctx": ctx, "target": "crate:" + d,
